@@ -26,7 +26,7 @@ RULE = (
 )
 ASSUMPTIONS = ["restrict() of labmc/optspace.py defines 'restricted to the keys the class reports'"]
 
-KINDS = ["flat", "dotted", "dotted2", "deep", "defaulted", "ds", "applied", "const", "strconst", "listconst", "wholesect", "sectS", "inherited"]
+KINDS = ["flat", "dotted", "dotted2", "deep", "defaulted", "ds", "applied", "const", "strconst", "listconst", "wholesect", "sectS", "unannotated", "underscore", "inherited"]
 SPEC = {
     "flat": [("A", [1, 2])],
     "dotted": [("S.X", [1, 2]), ("S.Y", [ABSENT, 9])],
@@ -41,6 +41,9 @@ SPEC = {
     "wholesect": [("T", [{"P": 1, "Q": 2}, {"Q": 2, "P": 1}, {"P": 1, "Q": 3}])],
     # the whole section S, next to members that read single entries of it
     "sectS": [("S.Y", [ABSENT, 9])],
+    # a member given without an annotation, and one whose name starts with a single underscore
+    "unannotated": [("F", [1, 2])],
+    "underscore": [("G", [ABSENT, 7])],
     "inherited": [("E", [ABSENT, 6])],
 }
 
@@ -69,6 +72,8 @@ def build_class(kinds):
         "listconst": ["raw", {"k": 1}],
         "wholesect": Option("T"),
         "sectS": Option("S", {"none": 0}),
+        "unannotated": Option("F"),
+        "underscore": Option("G", 0),
     }
     ns = {"__annotations__": {}}
     bases = ()
@@ -76,6 +81,11 @@ def build_class(kinds):
         if k == "inherited":
             base = type("Base", (), {"__annotations__": {"m_inherited": int}, "m_inherited": Option("E", 5)})
             bases = (base,)
+        elif k == "unannotated":
+            ns["m_" + k] = members[k]
+        elif k == "underscore":
+            ns["__annotations__"]["_m_" + k] = int
+            ns["_m_" + k] = members[k]
         else:
             ns["__annotations__"]["m_" + k] = int
             ns["m_" + k] = members[k]
@@ -138,7 +148,7 @@ def check_class(kinds, res):
         union_keys = set()
         union_explain = set()
         for k, m in members.items():
-            attr = getattr(obj, "m_" + k)
+            attr = getattr(obj, ("_m_" if k == "underscore" else "m_") + k)
             if isinstance(m, Evaluatable):
                 want = m.evaluate(copy.deepcopy(o))
                 union_keys |= set(m.keys(copy.deepcopy(o)))
@@ -170,10 +180,28 @@ def check_class(kinds, res):
         same = observe(None, lambda: via_eval.value == obj, materialise=False) if via_eval.ok else None
         if same is not None and (not same.ok or not same.value):
             fail("evaluate-differs-from-instantiation", f"cls.evaluate(o) == cls(o) gives {same!r}", o)
+        if via_eval.ok:
+            # an evaluation of the class yields a new instance every time: what a holder does to the members of
+            # one instance is not seen by the next evaluation
+            for k in members:
+                v = getattr(via_eval.value, ("_m_" if k == "underscore" else "m_") + k)
+                if isinstance(v, list):
+                    v.append("scribble")
+                elif isinstance(v, dict):
+                    v["scribble"] = 1
+            second = observe(None, lambda: cls.evaluate(copy.deepcopy(o)), materialise=False)
+            if second.ok:
+                for k, m in members.items():
+                    attr = getattr(second.value, ("_m_" if k == "underscore" else "m_") + k)
+                    want = m.evaluate(copy.deepcopy(o)) if isinstance(m, Evaluatable) else constants[k]
+                    if freeze(attr) != freeze(want):
+                        fail("second-evaluation-of-the-class-differs", f"{k}: {attr!r} vs {want!r}", o)
+            else:
+                fail("second-evaluation-of-the-class-failed", repr(second), o)
         insts.append((o, obj, freeze(r)))
         # an instance owns its values: changing them in place must not leak into the class or other instances
         for k in members:
-            v = getattr(obj, "m_" + k)
+            v = getattr(obj, ("_m_" if k == "underscore" else "m_") + k)
             if isinstance(v, list):
                 v.append("scribble")
             elif isinstance(v, dict):
